@@ -179,18 +179,32 @@ impl World for W2T {
                 }
             }
             "big" => {
-                // long raw-text bodies: the script-data states are self-recursive per byte
+                // long constructs: whatever the tokenizer does per byte, per attribute or per nesting level must not
+                // deepen the stack (the script-data states used to call each other once per byte)
                 let n = match tier {
                     Tier::Quick => rng.range(200_000, 600_000),
                     Tier::Thorough => rng.range(1_000_000, 4_000_000),
                 };
-                let mut s = String::from("<html><body><script>");
-                let unit = rng.pick_str(&["var a = 1; ", "x<y ", "<!-- a ", "--> ", "<!--<script> ", "</scrip ", "é"]);
+                let mut s = String::from("<html><body>");
+                let (open, units, close): (&str, &[&str], &str) = match rng.below(10) {
+                    0..=2 => ("<script>", &["var a = 1; ", "x<y ", "<!-- a ", "--> ", "<!--<script> ", "</scrip ", "é"], "</script>"),
+                    3 => ("<script>", &["<", "<!--", "-->", "<!--<script>", "</script>-->", "</script ", "-", "<s", "</"], "</script>"),
+                    4 => ("<!--", &["- ", "-- ", "--! ", "a ", "> ", "<!-- "], "-->"),
+                    5 => ("<div ", &["a=1 ", "b='x y' ", "c=\"<>\" ", "d ", "e= ", "/ ", "é=é ", "=x "], ">"),
+                    6 => ("", &["<div>", "<p>", "<span a=b>", "<b><i>"], "</div>"),
+                    7 => (*rng.pick(&["<textarea>", "<title>", "<style>", "<xmp>", "<plaintext>"]), &["text ", "</texta ", "</ti", "< ", "</style ", "&amp; "], "</textarea></title></style></xmp>"),
+                    8 => (*rng.pick(&["<!DOCTYPE ", "<?", "<!", "</ "]), &["html ", "\"x\" ", "- ", "< ", "' "], ">"),
+                    _ => ("", &["a < b ", "&amp;", "text ", "</ ", "<>", "é", "\0"], ""),
+                };
+                s.push_str(open);
+                let single = rng.coin();
+                let one = rng.below(units.len());
                 while s.len() < n {
-                    s.push_str(&unit);
+                    s.push_str(units[if single { one } else { rng.below(units.len()) }]);
                 }
                 if rng.coin() {
-                    s.push_str("</script></body></html>");
+                    s.push_str(close);
+                    s.push_str("</body></html>");
                 }
                 s.into_bytes()
             }
@@ -379,3 +393,5 @@ impl World for W2T {
         }
     }
 }
+
+crate::unoptimised_twin!(W2TU, W2T, "W2TU");
